@@ -4,6 +4,7 @@
 # tests still pass with it, and the demonstration fails with the change and passes without. On success copies the
 # seed to /verif/seeded/<id>-<X>/ and records what was run in meta.json. The scratch worktree is always removed.
 set -u
+REBASED=0
 ID=$1; X=$2; SRC=$3
 WT=$(mktemp -d /tmp/seedchk.XXXXXX)
 rmdir "$WT"
@@ -11,9 +12,10 @@ git -C /repo worktree add -q --detach "$WT" HEAD || exit 3
 cleanup() { git -C /repo worktree remove --force "$WT" >/dev/null 2>&1; rm -rf "$WT"; }
 trap cleanup EXIT
 cd "$WT" || exit 3
-/venv/bin/python "$SRC/demo.py" >"$WT/.demo_clean.out" 2>&1; RC_CLEAN=$?
-if ! git apply "$SRC/patch.diff" 2>"$WT/.apply.err"; then echo "$ID-$X: patch does not apply: $(head -2 $WT/.apply.err)"; exit 1; fi
-/venv/bin/python "$SRC/demo.py" >"$WT/.demo_patched.out" 2>&1; RC_PATCHED=$?
+mkdir -p "$WT/OUT/$ID-$X"; cp "$SRC/demo.py" "$WT/OUT/$ID-$X/demo.py"
+FIM_ROOT="$WT" /venv/bin/python "$WT/OUT/$ID-$X/demo.py" >"$WT/.demo_clean.out" 2>&1; RC_CLEAN=$?
+if ! git apply "$SRC/patch.diff" 2>"$WT/.apply.err"; then if ! git apply -3 "$SRC/patch.diff" 2>>"$WT/.apply.err" || grep -rq "^<<<<<<<" fim; then echo "$ID-$X: patch does not apply: $(head -2 $WT/.apply.err)"; exit 1; fi; git diff HEAD -- fim > "$WT/.rebased.diff"; REBASED=1; fi
+FIM_ROOT="$WT" /venv/bin/python "$WT/OUT/$ID-$X/demo.py" >"$WT/.demo_patched.out" 2>&1; RC_PATCHED=$?
 /venv/bin/python -m pytest -q -p no:cacheprovider --timeout=900 --continue-on-collection-errors --junitxml="$WT/.junit.xml" >"$WT/.pytest.out" 2>&1
 MISSING=$(/venv/bin/python - "$WT/.junit.xml" <<'PY'
 import json, sys, xml.etree.ElementTree as ET
@@ -31,6 +33,7 @@ if [ "$RC_CLEAN" = 0 ] && [ "$RC_PATCHED" = 1 ] && [ "$MISSING" = 0 ]; then
   DEST=/verif/seeded/$ID-$X
   mkdir -p "$DEST"
   cp "$SRC/patch.diff" "$SRC/demo.py" "$DEST/"
+  [ "${REBASED:-0}" = 1 ] && cp "$WT/.rebased.diff" "$DEST/patch.diff"
   /venv/bin/python - "$SRC/meta.json" "$DEST/meta.json" "$ID" "$X" "$SUMMARY" "$(git -C /repo rev-parse --short HEAD)" <<'PY'
 import json, sys
 src, dst, pid, x, summary, head = sys.argv[1:7]
